@@ -111,7 +111,7 @@ def persistent(d0: int, d1: int, d2: int, order: int) -> bool:
         resp.append(m)
         data = m['remainder']
     if len(resp) != n:
-        return fail('client did not receive exactly one response per request', got=len(resp), want=n, out=repr(cs.out[:200]))
+        return fail('client did not receive exactly one response per request (got %d of %d)' % (len(resp), n), out=repr(cs.out[:200]))
     ups = [s for a, s in env.connects if not isinstance(s, BaseException)]
     if role == 'web':
         for i in range(n):
